@@ -43,9 +43,10 @@ type script struct {
 	startUp      bool
 	steps        []step
 	unspoolSleep time.Duration
-	iobuf        int  // 0: 64 bytes
-	writeErr     bool // writes after the peer closed may fail (chosen exhaustively)
-	hung         bool // the first incarnation never reads (4 KiB of socket buffer)
+	iobuf        int           // 0: 64 bytes
+	writeErr     bool          // writes after the peer closed may fail (chosen exhaustively)
+	hung         bool          // the first incarnation never reads (4 KiB of socket buffer)
+	sockBuf      int           // socket buffer of a hung endpoint; 0: 4096 bytes
 	spoolFile    int           // spool segment size; 0: 200 bytes
 	spoolSleep   time.Duration // pacing of lines entering the spool (production default 500 us)
 }
@@ -84,6 +85,11 @@ var scripts = []script{
 	// record, 30-byte segments): reader and writer of the disk queue must agree on where a segment ends
 	{name: "S7 backlog-over-exactly-filled-segments", startUp: false, spoolFile: 30, spoolSleep: 500 * time.Microsecond,
 		steps: seq(s(line(), line(), line(), line(), line(), sleep(sec(3)), ev("up"), maybe(sec(0.5)), line()))},
+	// S8: the endpoint accepts but never reads and its socket buffer is tiny: the connection's writer
+	// blocks, its queue (4 slots) fills up and lines are dropped as slow; then the endpoint dies and the
+	// very next line meets a dead connection with a full queue; a healthy endpoint takes over
+	{name: "S8 hung-endpoint-full-queue-then-dies", startUp: true, hung: true, sockBuf: 16,
+		steps: seq(s(line(), line(), line(), line(), line(), line(), line(), ev("peerclose"), line(), ev("healthy"), maybe(sec(1.1)), line()))},
 	// S4: outage while the backlog is being unspooled
 	{name: "S4 outage-while-unspooling", startUp: false, unspoolSleep: 700 * time.Millisecond,
 		steps: seq(s(line(), line(), line(), line(), ev("up"), sleep(sec(3.2)), ev("peerclose"), maybe(sec(0.4)), line()))},
@@ -101,6 +107,9 @@ func (e *exec) Body() {
 	e.net = &destharn.Net{Up: e.sc.startUp, WriteErrChoice: e.sc.writeErr}
 	if e.sc.hung {
 		e.net.Mode, e.net.SockBuf = destharn.ReadNever, 4096
+		if e.sc.sockBuf > 0 {
+			e.net.SockBuf = e.sc.sockBuf
+		}
 	}
 	iobuf := 64
 	if e.sc.iobuf > 0 {
